@@ -33,6 +33,8 @@ TEXT = {
          "contract-based deductive verification (Verus): protocol preconditions on the Sink trait checked at every call site"),
 }
 
+TEXT['C19'] = ("Kani/CBMC on the real interpolate.rs: complete proof of is_valid_cap_letter over all byte values; bounded comparison (all templates up to 4 bytes quick / 6 bytes thorough) of find_cap_ref with an executable form of the regex library's documented reference grammar; one listed known finding (braced references). The expansion loop and the printers' replacement path are not verified.",
+               "bounded function-vs-spec-function check with Kani on the real source (include!); Verus cannot take this file (closures with reference patterns, str parsing)")
 checks = []
 for pid in sorted(props):
     text, tech = TEXT.get(pid, ("Deductive proof (Verus) of the contracted functions listed in evidence.", "contract-based deductive verification (Verus)"))
@@ -43,7 +45,7 @@ for pid in sorted(props):
         'evidence_file': '/verif/evidence/%s.json' % pid,
         'replay_cmd_template': 'python3 tools/replay.py {path}',
         'engine': 'verus+kani',
-        'level_claimed': {'category': 'proof', 'text': text, 'design_ref': 'DESIGN.md section 6'},
+        'level_claimed': {'category': props[pid].get('level', 'proof'), 'text': text, 'design_ref': 'DESIGN.md section 6'},
         'level_note': ' | '.join(props[pid].get('assumptions', [])),
         'technique': tech,
     })
